@@ -387,6 +387,7 @@ class C01(MotionMonitor):
     classes = [(3, "abs-mm", mk(arcs=True)), (2, "rel-inch", mk(rel=True, inch=True, arcs=True)),
                (2, "firmware", mk(fw=True, arcs=True)), (2, "at-commands", mk(at=True, arcs=True, rel=True, p_at=0.07, p_inside=0.5)),
                (2, "region-additions", mk(addregion=True, arcs=True, arcs_rel=True, rel=True, at=True)),
+               (1.5, "regions-added-and-deleted", mk(addregion=True, delregion=True, rel=True, at=True, p_inside=0.6, boost_add=0.1)),
                (2, "everything", mk(rel=True, inch=True, arcs=True, at=True, addregion=True, g28mid=True, retmove=True,
                                     spell=True, g92e_retracted=True)),
                (1.5, "exact-border", {}), (1.5, "arcs-under-g91", mk(rel=True, arcs=True, arcs_rel=True)),
@@ -423,7 +424,9 @@ class C03(MotionMonitor):
                (1, "firmware", mk(fw=True, rel=True)), (1, "g28-mid", mk(g28mid=True, rel=True, inch=True)),
                (0.5, "g92xyz-outside-episodes", mk(g92xyz=True, rel=True, g28mid=True, boost=0.1)),
                (0.5, "g92xyz-and-unit-switches", mk(g92xyz=True, inch=True, g28mid=True, boost=0.1)),
-               (1.5, "arcs-under-g91", mk(rel=True, arcs=True, arcs_rel=True))]
+               (1.5, "arcs-under-g91", mk(rel=True, arcs=True, arcs_rel=True)),
+               (1, "retract-on-move-relative", mk(rel=True, retmove=True, p_retmove=0.08, start_rel=0.6, p_inside=0.5)),
+               (1.5, "regions-added-and-deleted", mk(addregion=True, delregion=True, rel=True, p_inside=0.6, boost_add=0.1))]
 
     def oracle(self, tr, stats, case):
         return oracle_c03(tr, stats)
